@@ -60,7 +60,8 @@ type Scenario struct {
 	NoHook    bool         `json:"no_hook,omitempty"`
 	// CtxKind "own": the lane gets a context type of the harness' own (its own Done channel, no
 	// standard-library cancelCtx underneath) - a context whose cancellation the lane can only learn
-	// from Done()/Err() themselves. "" = context.WithCancel / WithTimeout.
+	// from Done()/Err() themselves. "cause": WithCancelCause / an ancestor with WithTimeoutCause.
+	// "" = context.WithCancel / WithTimeout.
 	CtxKind string `json:"ctx_kind,omitempty"`
 	// Siblings: that many further child contexts hang off the lane's context (a cancel walks them all).
 	Siblings int `json:"siblings,omitempty"`
